@@ -77,6 +77,7 @@ type exec struct {
 	queued  atomic.Int32
 	created atomic.Bool
 
+	leakScan   bool
 	terminated bool
 	termFinal  bool
 	stopIssued bool
@@ -88,6 +89,7 @@ type exec struct {
 	need        map[uint]int  // upper bound of the items any producer of that priority is handed
 	removedSet  map[uint]bool // v1: priorities whose RemoveInput has returned (and not re-added)
 	everSet     map[uint]bool
+	configured  map[uint]bool // priorities the discipline has: initial, plus AddInput returned, minus RemoveInput returned
 }
 
 func (e *exec) now() int64 { return int64(time.Since(e.epoch)) }
@@ -551,6 +553,10 @@ func (e *exec) snapshot(epilogue bool) {
 			sn.AllClosed = false
 		}
 	}
+	for p := range e.configured {
+		sn.Configured = append(sn.Configured, p)
+	}
+	sort.Slice(sn.Configured, func(i, j int) bool { return sn.Configured[i] > sn.Configured[j] })
 	e.tr.Snaps = append(e.tr.Snaps, sn)
 }
 
@@ -637,6 +643,7 @@ func (e *exec) build() error {
 		in := e.newInput(ic.P, ic.Cap)
 		e.inputs[ic.P] = in
 		e.everSet[ic.P] = true
+		e.configured[ic.P] = true
 		chans[ic.P] = in.ch
 		e.write(in, ic.Prefill)
 	}
@@ -834,6 +841,7 @@ func (e *exec) doOp(op Op) {
 			e.ad.addInput(in.ch, op.P)
 			e.mu.Lock()
 			in.unreg = false
+			e.configured[op.P] = true
 			e.tr.Inputs[ev].Returned = true
 			e.tr.Inputs[ev].ReturnedAt = e.now()
 			e.tr.Inputs[ev].DelivAtRet = len(e.tr.Deliveries)
@@ -859,6 +867,7 @@ func (e *exec) doOp(op Op) {
 			e.mu.Lock()
 			in.removed = true
 			e.removedSet[op.P] = true
+			delete(e.configured, op.P)
 			e.tr.Inputs[ev].Returned = true
 			e.tr.Inputs[ev].ReturnedAt = e.now()
 			e.tr.Inputs[ev].ReadsAtRet = in.readsHi()
@@ -877,10 +886,16 @@ func (e *exec) doOp(op Op) {
 			noop()
 			return
 		}
-		e.stop(op.K)
+		e.stop(op.K, op.N)
 	default:
 		noop()
 	}
+}
+
+func (e *exec) faulted() bool {
+	e.mu.Lock()
+	defer e.mu.Unlock()
+	return e.tr.FaultCall > 0 && !e.tr.FaultAtCreate
 }
 
 func (e *exec) liveLen() int {
@@ -932,7 +947,7 @@ func (e *exec) gracefulStop() {
 
 // stop issues Stop() or cancels the context, waits for completion and probes that
 // nothing more is delivered afterwards.
-func (e *exec) stop(kind string) {
+func (e *exec) stop(kind string, n int) {
 	e.wait()
 	e.mu.Lock()
 	e.stopIssued = true
@@ -947,18 +962,28 @@ func (e *exec) stop(kind string) {
 	if kind == "K" {
 		e.ad.cancel()
 	}
-	e.helper(func() {
-		e.ad.stop() // documented way to wait for completion after a cancel as well
-		e.mu.Lock()
-		e.tr.StopReturned = true
-		e.tr.StopReturnedAt = e.now()
-		if e.ad.outLen != nil {
-			e.tr.StopOutLen = e.ad.outLen()
-		}
-		e.tr.HandleRunningAfterStop = len(e.calls)
-		e.terminated = true
-		e.mu.Unlock()
-	})
+	calls := 1
+	if n == 2 {
+		calls = 2 // two overlapping Stop() calls: each of them must only return once termination is complete
+	}
+	for c := 0; c < calls; c++ {
+		e.helper(func() {
+			e.ad.stop() // documented way to wait for completion after a cancel as well
+			e.mu.Lock()
+			if !e.tr.StopReturned {
+				e.tr.StopReturned = true
+				e.tr.StopReturnedAt = e.now()
+				if e.ad.outLen != nil {
+					e.tr.StopOutLen = e.ad.outLen()
+				}
+			}
+			if r := len(e.calls); r > e.tr.HandleRunningAfterStop {
+				e.tr.HandleRunningAfterStop = r
+			}
+			e.terminated = true
+			e.mu.Unlock()
+		})
+	}
 	// bounded wait on the virtual clock: Stop must return without any release
 	for i := 0; i < 50; i++ {
 		e.settleOnce()
@@ -999,6 +1024,28 @@ func (e *exec) stop(kind string) {
 // epilogue: orderly end of a run that was not stopped.
 func (e *exec) epilogue() {
 	e.opIdx.Store(int64(len(e.s.Ops)))
+	if e.faulted() && e.leakScan {
+		// after a divider fault the discipline must terminate (and leave no goroutine behind) once
+		// everything in flight is released, whether or not the inputs are ever closed
+		for round := 0; round < 4000 && !e.isTerminated(); round++ {
+			e.drain()
+			e.snapshot(true)
+			if e.isTerminated() {
+				return
+			}
+			if e.liveLen() > 0 {
+				e.releaseOne(0)
+				e.wait()
+				continue
+			}
+			if round > 40 {
+				break
+			}
+		}
+		if e.isTerminated() {
+			return
+		}
+	}
 	for _, in := range e.inputs {
 		if !in.closeReq && !in.removed {
 			in.closeReq = true
@@ -1055,7 +1102,7 @@ func Execute(t *testing.T, s Script, leakScan bool) Trace {
 	}
 	res := bubble.Run(t, func() {
 		e := &exec{s: s, tr: &tr, epoch: time.Now(), quit: make(chan struct{}), inputs: map[uint]*input{}, gens: map[uint]int{},
-			calls: map[int]*call{}, removedSet: map[uint]bool{}, everSet: map[uint]bool{}}
+			calls: map[int]*call{}, removedSet: map[uint]bool{}, everSet: map[uint]bool{}, configured: map[uint]bool{}, leakScan: leakScan}
 		unbuf := 0
 		for _, in := range s.Ins {
 			if in.Cap == 0 {
